@@ -20,6 +20,14 @@ def gen(tier, seed):
                  if rnd.random() < 0.05]
     nrand = 60 if tier == "quick" else 300
     vecs += [random_vector(rnd, pmax=4 if tier == "quick" else 5, big=(i % 3 == 0)) for i in range(nrand)]
+    # the same shapes on an interval whose ends are not binary fractions (float(1/3) < 1/3, float(11/10) > 11/10): exact
+    # comparisons with the end knots must not go through a float
+    extra = []
+    for v in rnd.sample(vecs, 8 if tier == "quick" else 80):
+        a, b = v["U"][0], v["U"][-1]
+        lo, hi = rnd.choice(((F(1, 3), F(11, 10)), (F(-7, 3), F(1, 10)), (F(1, 7), F(22, 7))))
+        extra.append(dict(v, U=[lo + (hi - lo) * (x - a) / (b - a) for x in v["U"]], kind=v["kind"] + "-nondyadic-ends"))
+    vecs = vecs + extra
     cases = []
     for v in vecs:
         U, p = v["U"], v["p"]
@@ -30,6 +38,8 @@ def gen(tier, seed):
             if tier == "quick" and v["kind"] == "uniform" and dim == 2:
                 continue
             W = rand_weights(rnd, n) if rational else None
+            if rational and rnd.random() < 0.15:
+                W = [-w for w in W]          # a weight function without a zero may as well be negative everywhere
             if rational and rnd.random() < 0.4 and v["kind"] != "random-big":
                 # non-constant weights whose weight function is EXACTLY 1 at one of the evaluated parameters
                 W = weights_one_at(U, p, W, rnd.choice(nodes[:-4]))
